@@ -137,6 +137,24 @@ let preds : (string * (val0 list -> bool)) list = [
   ("c17_set_pred", c17_set_pred);
 ]
 
+(* the harness may append ["__prog__", <program / inputs of the failing case>] to the arguments of a known-finding
+   classifier (names starting with kf_): classifiers with an input-side condition use it, the others ignore it *)
+let split_prog (args : v list) : v option * v list =
+  match List.rev args with
+  | VL [t; p] :: rest when (match t with VS _ -> tag t = "__prog__" | _ -> false) -> (Some p, List.rev rest)
+  | _ -> (None, args)
+let is_kf name = String.length name > 3 && String.sub name 0 3 = "kf_"
+let input_side : (string * (val0 -> bool)) list = [
+  ("kf_f17", f17_input oracles.o_ip_parse); ("kf_f17_1", f17_input oracles.o_ip_parse); ("kf_f17_base", f17_input oracles.o_ip_parse);
+  ("kf_f30", f30_input) ]
+(* with the program at hand F17 is: input in the class, and the observation shows an unbracketed ':' host, a
+   ValueError of an authority accessor or unbalanced brackets *)
+let f17_obs_of name (l : val0 list) = match name with
+  | "kf_f17" -> f17_observed l
+  | "kf_f17_1" -> f17_observed (List.tl l)
+  | "kf_f17_base" -> f17_observed [List.nth l 4]
+  | _ -> false
+
 let backend = function "py" -> BPy | "c" -> BC | _ -> failwith "backend"
 
 let dispatch fn args =
@@ -152,10 +170,19 @@ let dispatch fn args =
   | "unquote", [i; a] -> vs (unquote_n b (nat_of_int (gi i)) (gs a))
   | "observe", [p; pr] -> vval (run_observe oracles b (n_of_int (gi p)) (prog pr))
   | "compare", [p1; p2] -> vval (run_compare oracles b (prog p1) (prog p2))
+  | p, args when is_kf p && List.mem_assoc p preds ->
+    let (pr, args') = split_prog args in
+    let l = List.map wval args' in
+    (match pr with
+     | Some pv when List.mem_assoc p input_side ->
+       let inp = (List.assoc p input_side) (wval pv) in
+       if String.length p >= 6 && String.sub p 0 6 = "kf_f17" then VB (inp && f17_obs_of p l)
+       else VB (inp && (List.assoc p preds) l)
+     | _ -> VB ((List.assoc p preds) l))
   | p, args when List.mem_assoc p preds -> VB ((List.assoc p preds) (List.map wval args))
   | "c12_pred", [k; q; names; before; after] ->
     VB (c12_pred (n_of_int (gi k)) (qarg q) (gl gs names) (wval before) (wval after))
-  | "kf_f29", [k; q; names; before; after] ->
+  | "kf_f29", (k :: q :: names :: before :: after :: _) ->
     VB (kf_f29 (n_of_int (gi k)) (qarg q) (gl gs names) (wval before) (wval after))
   | "c15_np_pred", [a; VS o] -> VB (c15_np_pred (gs a) (str_of_ints o))
   | "c15_np_pred", [_; _] -> VB false
